@@ -163,6 +163,13 @@ def _server_facts(server):
     gh = gtries[0].handlers[0]
     facts["streamCatches"] = _handler_types(gh)
     facts["streamReraises"] = any(isinstance(s, ast.Raise) and s.exc is None for s in gh.body)
+    # attribute access: the accessor of the class's property object is called directly (no attribute protocol of the
+    # instance in between, so a getter's AttributeError cannot be diverted to the instance's __getattr__)
+    for fname, key in (("_get_exposed_property_value", "propGetReturns"), ("_set_exposed_property_value", "propSetReturns")):
+        f = _fn(tree, None, fname)
+        facts[key] = [ast.unparse(n.value) for n in ast.walk(f) if isinstance(n, ast.Return) and n.value is not None]
+        facts[key + "Lookup"] = [ast.unparse(n.value) for n in ast.walk(f) if isinstance(n, ast.Assign)
+                                 and any(isinstance(t, ast.Name) and t.id == "v" for t in n.targets)]
     return facts
 
 
@@ -179,7 +186,23 @@ def _client_facts(client):
         if isinstance(n, ast.If) and any(isinstance(s, ast.Raise) and s.exc is not None and ast.unparse(s.exc) == "data" for s in n.body):
             raises.append(ast.unparse(n.test))
     facts["clientRaiseTest"] = raises
-    bp = _fn(tree, "BatchProxy", "_BatchProxy__resultsgenerator") if False else None
+    rm = _fn(tree, "_RemoteMethod", "__call__")
+    loops = [n for n in rm.body if isinstance(n, ast.For)]
+    if len(rm.body) != 1 or len(loops) != 1 or loops[0].orelse:
+        raise RuntimeError("source shape: _RemoteMethod.__call__ is not a single for loop")
+    lp = loops[0]
+    if len(lp.body) != 1 or not isinstance(lp.body[0], ast.Try) or len(lp.body[0].handlers) != 1 or lp.body[0].orelse \
+            or lp.body[0].finalbody:
+        raise RuntimeError("source shape: body of the retry loop")
+    tr = lp.body[0]
+    facts["retryTarget"] = ast.unparse(lp.target)
+    facts["retryRange"] = ast.unparse(lp.iter)
+    facts["retryTry"] = [ast.unparse(x) for x in tr.body]
+    facts["retryCatches"] = _handler_types(tr.handlers[0])
+    facts["retryHandler"] = [ast.unparse(x) for x in tr.handlers[0].body]
+    ga = _fn(tree, "Proxy", "__getattr__")
+    facts["attrReadCalls"] = [ast.unparse(n.value) for n in ast.walk(ga) if isinstance(n, ast.Return)]
+    bp = None
     for n in tree.body:
         if isinstance(n, ast.ClassDef) and n.name == "BatchProxy":
             for m in n.body:
@@ -274,7 +297,7 @@ def extract():
     L.append("inductive Kind\n  | exc (qual : List Char)\n  | cls\n  | other\n  deriving DecidableEq, Repr\n")
     L.append("/-- what the isinstance tests of Daemon.handleRequest / Proxy._pyroInvoke / the generator protocol see in an instance -/")
     L.append("structure Flags where\n  isException : Bool\n  isComm : Bool\n  isSerialize : Bool\n  isConnClosed : Bool\n"
-             "  isSecurity : Bool\n  isKbdInt : Bool\n  isStopIter : Bool\n  deriving DecidableEq, Repr\n")
+             "  isSecurity : Bool\n  isKbdInt : Bool\n  isStopIter : Bool\n  isPyroTimeout : Bool\n  deriving DecidableEq, Repr\n")
     L.append("/-- serializers.all_exceptions: key ↦ `__module__.__name__` of the class it maps to (%d keys) -/" % len(allx))
     L.append("def allExceptions : List (List Char × List Char) := [")
     L.append(",\n".join("  (%s, %s)" % (_chars(n), _chars(qual(t))) for n, t in allx))
@@ -293,10 +316,11 @@ def extract():
     L.append("def classFlags : List (List Char × Flags) := [")
     rows = []
     for t in classes:
-        rows.append("  (%s, ⟨%s, %s, %s, %s, %s, %s, %s⟩)" % (
+        rows.append("  (%s, ⟨%s, %s, %s, %s, %s, %s, %s, %s⟩)" % (
             _chars(qual(t)), _b(issubclass(t, Exception)), _b(issubclass(t, errors.CommunicationError)),
             _b(issubclass(t, errors.SerializeError)), _b(issubclass(t, errors.ConnectionClosedError)),
-            _b(issubclass(t, errors.SecurityError)), _b(issubclass(t, KeyboardInterrupt)), _b(issubclass(t, StopIteration))))
+            _b(issubclass(t, errors.SecurityError)), _b(issubclass(t, KeyboardInterrupt)), _b(issubclass(t, StopIteration)),
+            _b(issubclass(t, errors.TimeoutError))))
     L.append(",\n".join(rows))
     L.append("]\n")
     L.append("def structErrorQual : List Char := %s" % _chars(qual(struct.error)))
@@ -331,6 +355,16 @@ def extract():
     strs("exceptionFlag", "augmented assignments of _sendExceptionResponse", sf["exceptionFlag"])
     strs("streamCatches", "classes of the handler around next(stream) in get_next_stream_item", sf["streamCatches"])
     b1("streamReraises", "that handler re-raises", sf["streamReraises"])
+    strs("propGetReturns", "return values of server._get_exposed_property_value", sf["propGetReturns"])
+    strs("propGetReturnsLookup", "where its `v` comes from", sf["propGetReturnsLookup"])
+    strs("propSetReturns", "return values of server._set_exposed_property_value", sf["propSetReturns"])
+    strs("propSetReturnsLookup", "where its `v` comes from", sf["propSetReturnsLookup"])
+    s1("retryTarget", "loop variable of _RemoteMethod.__call__", cf["retryTarget"])
+    s1("retryRange", "what it ranges over", cf["retryRange"])
+    strs("retryTry", "body of the try statement inside the loop", cf["retryTry"])
+    strs("retryCatches", "classes its handler catches", cf["retryCatches"])
+    strs("retryHandler", "body of that handler", cf["retryHandler"])
+    strs("attrReadCalls", "return statements of Proxy.__getattr__ (attribute reads do not go through _RemoteMethod.__call__)", cf["attrReadCalls"])
     strs("clientReleaseOn", "classes on which Proxy._pyroInvoke releases the connection", cf["clientReleaseOn"])
     strs("clientReleaseBody", "body of that handler", cf["clientReleaseBody"])
     strs("clientRaiseTest", "tests guarding `raise data` in _pyroInvoke", cf["clientRaiseTest"])
